@@ -72,6 +72,9 @@ pub fn file_event(id: u64, tag: &str, dir: &Path, qr: &QRCode, prog: &[Call], re
         match pre {
             "shorter" => { let _ = std::fs::write(&path, vec![b'#'; (expect.len() / 3).max(1)]); }
             "longer" => { let _ = std::fs::write(&path, vec![b'#'; expect.len() * 2 + 100]); }
+            "samelen" => { let _ = std::fs::write(&path, vec![b'#'; expect.len()]); }
+            // an earlier rendering of the same length that differs only far from the start (what a recolouring leaves behind)
+            "samehead" => { let mut old = expect.clone(); let n = old.len(); for k in [n - 1, n - 2, n - n / 8, n / 2 + 4096.min(n / 3)] { if k < n { old[k] = old[k].wrapping_add(1) | 0x20; } } let _ = std::fs::write(&path, old); }
             _ => {}
         }
     }
@@ -120,7 +123,7 @@ pub fn fileio(sink: &mut Sink, seed: u64, thorough: bool, behaviours: &str) {
             for k in 0..10usize {
                 if !thorough && (k + vi) % 2 == 1 { continue; }
                 let id = sink.id();
-                let pre = ["absent", "shorter", "longer"][(k + vi) % 3];
+                let pre = ["absent", "shorter", "longer", "samelen", "samehead"][(k + vi) % 5];
                 if let Some(mut ev) = file_event(id, &format!("filename:{renderer}:{k}"), &dir, &qr, &prog, renderer, &format!("name{k}"), None, pre) { ev["fault"] = json!("none"); sink.emit(&ev); }
             }
             if thorough {
@@ -128,7 +131,7 @@ pub fn fileio(sink: &mut Sink, seed: u64, thorough: bool, behaviours: &str) {
                 for j in 0..64u64 {
                     let limit = match j { 0 => 0, 1 => 1, 2 => 2, 61 => len - 2, 62 => len - 1, 63 => len + 1, _ => len * j / 64 };
                     let id = sink.id();
-                    if let Some(ev) = file_event(id, &format!("filesweep:{renderer}"), &dir, &qr, &prog, renderer, "EFBIG", Some(limit), ["absent", "shorter", "longer"][j as usize % 3]) { sink.emit(&ev); }
+                    if let Some(ev) = file_event(id, &format!("filesweep:{renderer}"), &dir, &qr, &prog, renderer, "EFBIG", Some(limit), ["absent", "shorter", "longer", "samelen", "samehead"][j as usize % 5]) { sink.emit(&ev); }
                 }
             }
         }
